@@ -16,6 +16,11 @@ use wasm_bindgen::JsValue;
 
 use super::{debug::debug_log, errors::AxError};
 
+/// Upper bound for the heap the built-in brk handler manages. The requested break comes from the
+/// guest; without a bound a single `brk` call makes the host allocate (and abort on) any amount
+/// of memory. 1 GiB is far more than any binary this emulator can run needs, also on wasm32.
+const MAX_HEAP_SIZE: u64 = 1 << 30;
+
 #[wasm_bindgen]
 #[derive(Debug, Clone, Copy, PartialEq, Eq, Hash, Serialize, Deserialize)]
 #[repr(u16)]
@@ -307,6 +312,18 @@ impl Axecutor {
 
             // Otherwise, we resize the brk section to the new size
             let new_length = brk - ax.state.syscalls.brk_start;
+
+            // A break this far away can never be backed by memory (the guest decides the argument,
+            // so it must not be handed to the allocator unchecked): the call fails like it does
+            // on Linux, by returning the current break
+            if new_length > MAX_HEAP_SIZE {
+                ax.reg_write_64(
+                    RAX,
+                    ax.state.syscalls.brk_start + ax.state.syscalls.brk_length,
+                )?;
+                return Ok(HookResult::Handled);
+            }
+
             ax.mem_resize_section(ax.state.syscalls.brk_start, new_length)?;
 
             ax.state.syscalls.brk_length = new_length;
